@@ -55,7 +55,7 @@ class C16(Property):
                      "and owned input), roundtrip (deserialize(serialize t) denotes t, for every tree, every input mode, any hash), "
                      "data_roundtrip + data_list_exact (flags and data list are consumed in step, in preorder; any other length is an "
                      "error), deser_total (with the nesting check: never a panic; whatever is accepted denotes what the events describe), "
-                     "nest_ok_parse, unchecked_refuted (the pre-fix deserializer accepts [Enter, Enter, Leave])")
+                     "nest_ok_parse, unchecked_refuted (the pre-fix deserializer accepts [Enter, Enter, Leave]); nest_ok_iff_parse and rejects_exactly (with the current type of the token text field the deserializer reports an error for exactly the event streams that are not one well-nested tree rooted in a node, and accepts all others)")
     assumptions = [
         "serde / serde_json: the event stream is encoded and decoded faithfully; a `&str` field deserializes only from unescaped "
         "borrowed input, a `Cow<str>` field from any input — assumed in exactly this form (deser_str), exercised by all four "
